@@ -189,7 +189,108 @@ KETS = Id('fixed_kets', ['numqi.state._internal:W', 'numqi.state._internal:GHZ',
           inputs=lambda _: dict(symbolic=True), call=_kets_call, post=_kets_post, sample=lambda rng, _: dict(symbolic=False), label=lambda _: 'n<=4,d in {2,3,4,6}')
 KETS.comparable = lambda r: [r['W3'], r['GHZ3'], r['MES3'], r['coh3']]
 
-CONTRACTS = {c.name: c for c in [WERNER, ISO, HORO24, HORO33, WTYPE, KETS]}
+# ---- spectral certificates: positivity / PPT of the Werner and isotropic families for ALL parameter values in the stated range.
+# N(alpha) * rho(alpha) == sum_k c_k(alpha) P_k with CONCRETE mutually orthogonal projectors P_k summing to the identity (checked exactly), so the spectrum of rho is {c_k/N}:
+# positive semidefinite iff every c_k/N >= 0, which is a linear inequality in alpha discharged by z3 under the range hypotheses. The same for the partial transpose.
+def _pt_sym(R, d):
+    return R.reshape(d, d, d, d).transpose(0, 3, 2, 1).reshape(d * d, d * d)
+
+
+def _proj_sets(d, like):
+    D = d * d
+    I_ = np.empty((D, D), dtype=object); S_ = np.empty((D, D), dtype=object); Pm = np.empty((D, D), dtype=object)
+    for i in range(D):
+        for j in range(D):
+            I_[i, j] = sp.Integer(int(i == j)); S_[i, j] = sp.Integer(0); Pm[i, j] = sp.Integer(0)
+    for i in range(d):
+        for j in range(d):
+            S_[i * d + j, j * d + i] = sp.Integer(1)
+            Pm[i * d + i, j * d + j] = sp.Rational(1, d)
+    half = sp.Rational(1, 2)
+    Ps = (I_ + S_) * half; Pa = (I_ - S_) * half
+    return Ps, Pa, Pm, I_ - Pm
+
+
+def _is_projector_pair(A, Bm):
+    z = lambda M: all(sp.simplify(sp.sympify(x)) == 0 for x in np.asarray(M, dtype=object).ravel())
+    n = A.shape[0]
+    eye = np.empty((n, n), dtype=object)
+    for i in range(n):
+        for j in range(n):
+            eye[i, j] = sp.Integer(int(i == j))
+    return z(A.dot(A) - A) and z(Bm.dot(Bm) - Bm) and z(A.dot(Bm)) and z(A + Bm - eye)
+
+
+class Spectral:
+    prop = PROP; modules = [si, numqi.dicke]
+
+    def __init__(self, family):
+        self.family = family; self.name = f'{family}.spectral_certificate'; self.targets = [f'numqi.state._internal:{family}']
+
+    def shape_label(self, sh): return f'd={sh[0]},regime={sh[1]}'
+
+    def _range(self, d, regime):
+        if self.family == 'Werner':
+            lo, hi = -1, 1; sep = sp.Rational(1, d)
+        else:
+            lo, hi = sp.Rational(-1, d * d - 1), 1; sep = sp.Rational(1, d + 1)
+        return dict(psd=(lo, hi), ppt=(lo, sep), npt=(sep, hi))[regime], sep
+
+    def inputs(self, sh):
+        d, regime = sh
+        (lo, hi), sep = self._range(d, regime)
+        return dict(d=d, regime=regime, alpha=rsym('alpha', lo, hi))
+
+    def call(self, I):
+        return getattr(si, self.family)(I['d'], I['alpha'])
+
+    def assume(self, I):
+        (lo, hi), sep = self._range(I['d'], I['regime'])
+        a = I['alpha']
+        h = [('>=', a, lo), ('<=', a, hi)]
+        if I['regime'] == 'npt':
+            h[0] = ('>', a, lo)
+        return h
+
+    def post(self, I, r):
+        d, a, regime = I['d'], I['alpha'], I['regime']
+        R = SS.arr(r)
+        if R.dtype != object:      # native form: eigenvalues (run-time contract)
+            w = np.linalg.eigvalsh(R); wt = np.linalg.eigvalsh(_pt_sym(R, d))
+            if regime == 'psd': return [('positive_semidefinite', np.array([min(w.min(), 0.0)]), np.array([0.0]))]
+            if regime == 'ppt': return [('partial_transpose_positive_semidefinite', np.array([min(wt.min(), -0.0) if wt.min() < -1e-12 else 0.0]), np.array([0.0]))]
+            return [('partial_transpose_has_a_negative_eigenvalue', np.array([1.0 if wt.min() < 0 else 0.0]), np.array([1.0]))]
+        Ps, Pa, Pm, Q = _proj_sets(d, R)
+        ok_proj = _is_projector_pair(Ps, Pa) and _is_projector_pair(Pm, Q)
+        cl = [('reference_projectors_are_complementary_orthogonal_projectors', np.array([int(ok_proj)]), np.array([1]))]
+        if self.family == 'Werner':
+            N = d * d - d * a
+            state = (N, [(1 - a, Ps), (1 + a, Pa)]); pt = (N, [(sp.Integer(1), Q), (1 - a * d, Pm)])
+        else:
+            N = sp.Integer(d * d)
+            state = (N, [(1 - a, Q), (1 - a + a * d * d, Pm)]); pt = (N, [(1 - a + a * d, Ps), (1 - a - a * d, Pa)])
+        which = state if regime == 'psd' else pt
+        M = R if regime == 'psd' else _pt_sym(R, d)
+        Nn, terms = which
+        cl.append(('N_times_matrix_is_a_combination_of_the_projectors', M * Nn, sum(c * P for c, P in terms)))
+        cl.append(('normalisation_positive', np.array([Nn], dtype=object), 0, '>'))
+        if regime in ('psd', 'ppt'):
+            cl.append(('every_spectral_coefficient_nonnegative_on_the_range', np.array([c for c, _ in terms], dtype=object), 0, '>='))
+        else:
+            cl.append(('one_spectral_coefficient_negative_beyond_the_separable_range', np.array([terms[-1][0]], dtype=object), 0, '<'))
+        return cl
+
+    def sample(self, rng, sh):
+        d, regime = sh
+        (lo, hi), sep = self._range(d, regime)
+        lo, hi = float(lo), float(hi)
+        return dict(d=d, regime=regime, alpha=float(rng.uniform(lo + 1e-3 * (hi - lo), hi - 1e-3 * (hi - lo))))
+
+    def comparable(self, r): return [r]
+
+
+SPEC_W = Spectral('Werner'); SPEC_I = Spectral('Isotropic')
+CONTRACTS = {c.name: c for c in [WERNER, ISO, HORO24, HORO33, WTYPE, KETS, SPEC_W, SPEC_I]}
 
 
 def job_identity(tier, rng, cname, shapes):
@@ -373,6 +474,9 @@ def jobs(tier):
          ('job_identity', dict(cname='get_bes2x4_Horodecki1997', shapes=[0])), ('job_identity', dict(cname='get_bes3x3_Horodecki1997', shapes=[0])),
          ('job_identity', dict(cname='Wtype', shapes=[2, 3, 4])), ('job_identity', dict(cname='fixed_kets', shapes=[0])),
          ('job_families', {}), ('job_upb', {}), ('job_povm', {})]
+    for fam in ('Werner', 'Isotropic'):
+        for d in (2, 3) + ((4,) if tier != 'quick' else ()):
+            J.append(('job_identity', dict(cname=f'{fam}.spectral_certificate', shapes=[(d, 'psd'), (d, 'ppt'), (d, 'npt')])))
     return J
 
 
